@@ -113,3 +113,93 @@ def canary():
 
 
 R.canaries.append(("phase.py:canary#list-always-restarts-with-header", canary))
+
+
+# ---------------------------------------------------------------------------------------------------------------------------------
+# find_components (C03): the returned map is exactly the connected-component relation generated by the reads (and the master block),
+# each component named by its minimum.  ComponentFinder's contracts are proved in contracts.graph_py and used here at the call sites.
+from contracts import graph_py as _G  # noqa: E402
+
+R.import_proved(_G.R, "contracts.graph_py", ["ComponentFinder.__init__", "ComponentFinder.merge", "ComponentFinder.find"])
+R.declare_class("Read", {"variants": LIST(REF("Variant")), "sample_id": INT})
+R.iter_fields["Read"] = "variants"
+
+# CLS: an ARBITRARY labelling of positions (uninterpreted): the contract holds for every labelling whose classes are closed under the
+# links, i.e. the returned partition refines every equivalence containing the links = it is the least one = connected components.
+_CLS = z3.Function("CLS", z3.IntSort(), z3.IntSort())
+
+
+@R.spec
+def CLS(eng, st, p):
+    return _CLS(to_z3(p))
+
+
+def _pass(rr, i, member):
+    pos = "reads[%s].variants[%s].position" % (rr, i)
+    return "(%s in %s and (heterozygous_positions is None or %s in heterozygous_positions[reads[%s].sample_id]))" % (pos, member, pos, rr)
+
+
+def _linked(bound, member, rep):
+    return ("forall(rr, i, j, implies(0 <= rr and rr < %s and 0 <= i and i < len(reads[rr].variants) and 0 <= j and j < len(reads[rr].variants) and %s and %s, "
+            "%s == %s))" % (bound, _pass("rr", "i", member), _pass("rr", "j", member),
+                            rep % "reads[rr].variants[i].position", rep % "reads[rr].variants[j].position"))
+
+
+_REP = "rep(component_finder, %s)"
+_CLS_SET = ("forall(rr, i, j, implies(0 <= rr and rr < len(reads) and 0 <= i and i < len(reads[rr].variants) and 0 <= j and j < len(reads[rr].variants) and "
+            + _pass("rr", "i", "phased_positions_set") + " and " + _pass("rr", "j", "phased_positions_set")
+            + ", CLS(reads[rr].variants[i].position) == CLS(reads[rr].variants[j].position)))")
+_CLS_CUR = "forall(k, implies(0 <= k and k < len(positions), CLS(positions[k]) == CLS(positions[0])))"
+_LEAST = "forall(a, b, implies(a in component_finder.nodes and b in component_finder.nodes and rep(component_finder, a) == rep(component_finder, b), CLS(a) == CLS(b)))"
+_DOM = "forall(v, (v in component_finder.nodes) == (v in phased_positions_set))"
+_MASTER_DONE = "forall(k, implies(0 <= k and k < %s, rep(component_finder, master_block[k]) == rep(component_finder, master_block[0])))"
+
+R.contract(
+    "find_components",
+    params={"phased_positions": LIST(INT), "reads": LIST(REF("Read")), "master_block": MAYBE(LIST(INT)), "heterozygous_positions": MAYBE(DICT(INT, SET(INT)))},
+    returns=DICT(INT, INT),
+    requires=[
+        ("reads-valid", "forall(rr, implies(0 <= rr and rr < len(reads), reads[rr] is not None))"),
+        ("variants-valid", "forall(rr, i, implies(0 <= rr and rr < len(reads) and 0 <= i and i < len(reads[rr].variants), reads[rr].variants[i] is not None))"),
+        ("positions-distinct-within-read", "forall(rr, i, j, implies(0 <= rr and rr < len(reads) and 0 <= i and i < j and j < len(reads[rr].variants), "
+                                           "reads[rr].variants[i].position != reads[rr].variants[j].position))"),
+        ("samples-known", "implies(heterozygous_positions is not None, forall(rr, implies(0 <= rr and rr < len(reads), reads[rr].sample_id in heterozygous_positions)))"),
+        ("master-phased", "implies(master_block is not None, forall(k, implies(0 <= k and k < len(master_block), master_block[k] in phased_positions)))"),
+        ("master-distinct", "implies(master_block is not None, forall(k, implies(1 <= k and k < len(master_block), master_block[k] != master_block[0])))"),
+        # hypotheses on the arbitrary labelling CLS
+        ("cls-closed-under-reads", "forall(rr, i, j, implies(0 <= rr and rr < len(reads) and 0 <= i and i < len(reads[rr].variants) and 0 <= j and j < len(reads[rr].variants) and "
+                                   + _pass("rr", "i", "phased_positions") + " and " + _pass("rr", "j", "phased_positions")
+                                   + ", CLS(reads[rr].variants[i].position) == CLS(reads[rr].variants[j].position)))"),
+        ("cls-closed-under-master", "implies(master_block is not None, forall(k, implies(0 <= k and k < len(master_block), CLS(master_block[k]) == CLS(master_block[0]))))"),
+    ],
+    ensures=[
+        ("domain", "forall(v, (v in result) == (v in phased_positions))"),
+        ("named-by-leftmost", "forall(v, implies(v in result, result[v] <= v and result[v] in result and result[result[v]] == result[v]))"),
+        ("read-linked-variants-share-a-set", _linked("len(reads)", "phased_positions", "result[%s]")),
+        ("master-block-is-one-set", "implies(master_block is not None, forall(k, implies(0 <= k and k < len(master_block), result[master_block[k]] == result[master_block[0]])))"),
+        ("no-coarser-than-any-closed-partition", "forall(a, b, implies(a in result and b in result and result[a] == result[b], CLS(a) == CLS(b)))"),
+    ],
+    locals={"__comp0": DICT(INT, INT)},
+    loops={
+        0: dict(index="ri", inv=[("cls-set", _CLS_SET), ("wf", "WF(component_finder)"), ("linked", _linked("ri", "phased_positions_set", _REP)), ("least", _LEAST)]),
+        1: dict(index="t", inv=[("cls-current", _CLS_CUR), ("wf", "WF(component_finder)"), ("linked", _linked("ri", "phased_positions_set", _REP)), ("least", _LEAST),
+                                ("current", "forall(k, implies(0 <= k and k <= t and k < len(positions), rep(component_finder, positions[k]) == rep(component_finder, positions[0])))")]),
+        2: dict(index="t2", inv=[("wf", "WF(component_finder)"), ("linked", _linked("len(reads)", "phased_positions_set", _REP)), ("least", _LEAST),
+                                 ("master", _MASTER_DONE % "1 + t2")]),
+        3: dict(index="t3", inv=[("wf", "WF(component_finder)"), ("linked", _linked("len(reads)", "phased_positions_set", _REP)), ("least", _LEAST),
+                                 ("master", "implies(master_block is not None, " + _MASTER_DONE % "len(master_block)" + ")"),
+                                 ("filled", "forall(v, (v in __comp0) == visited(3, v))"),
+                                 ("values", "forall(v, implies(v in __comp0, __comp0[v] == rep(component_finder, v)))")]),
+    },
+    extra={"desugar_comprehensions": True, "assume_asserts": [0]},
+    props=["C03"])
+
+
+def canary_fc():
+    import copy
+    c = copy.copy(R.contracts["find_components"])
+    c.ensures = [("wrong", "forall(a, b, implies(a in result and b in result, result[a] == result[b]))")]     # "everything ends up in one phase set"
+    return c
+
+
+R.canaries.append(("phase.py:canary#find_components-one-set-for-all", canary_fc))
